@@ -100,6 +100,7 @@ def build(tier="quick", seed=0):
     call_sites(b)
     dual_call_site(b)
     imported_from_C10(b)
+    dict_wrappers(b)
     b.replayer("*::ensures:*", lambda ob, res: replay(dict(obligation=ob.oid)))
     b.assume("heating_i = Mhost_i (n dU/dM_i - Omega_i dU/dOmega_i) is the C10 postcondition of the mode collapse; used here as a hypothesis, and discharged here on three covering (l_max, truncation, obliquity) configurations (all configurations: C10)")
     b.assume("at zero obliquity dU/dw = dU/dOmega (C10 key fact: only m = l-2p terms survive)")
@@ -121,6 +122,61 @@ def imported_from_C10(b):
         b.stats["paths"] += sub.stats["paths"]
     b.replayer("*[maxl*", lambda ob, res: C10.replay(dict(obligation=ob.oid)))
     C10.quick_tides_pipeline(b)
+
+
+def dict_wrappers(b):
+    """single_ / dual_dissipation_from_dict_or_world_instance (dictionary inputs): pure argument binding onto the functions proved above.  Every keyword the
+    callee receives is the caller's quantity of the same meaning: masses, radii, gravities, densities and moments of inertia of the RIGHT body (host
+    first, secondary second in the dual tuples), every pass-through parameter under its own name, and the single-body wrapper asks for the derivatives."""
+    from tpv.symex import Exec, SymExError
+    keys = ("radius", "mass", "gravity_surface", "density_bulk", "moi")
+    H = {k_: R("host_" + k_) for k_ in keys}
+    S_ = {k_: R("secondary_" + k_) for k_ in keys}
+    for name, callee in (("single_dissipation_from_dict_or_world_instance", "quick_tidal_dissipation"), ("dual_dissipation_from_dict_or_world_instance", "quick_dual_body_tidal_dissipation")):
+        try:
+            fn = Fn(FQ, name)
+        except ExtractError as e:
+            b.subset_exits.append(str(e))
+            continue
+        b.add_fn(fn)
+        passed = {p_: R("arg_" + p_) for p_ in fn.params if p_ not in ("host", "secondary", "rheology", "rheologies", "use_obliquity", "obliquity", "eccentricity")}
+        rec = []
+
+        def stub(ex, node, *a_, **k_):
+            rec.append((a_, k_))
+            return "RESULT"
+        env = dict(passed, host=dict(H), secondary=dict(S_), use_obliquity=True, eccentricity=R("arg_eccentricity"))
+        if "rheology" in fn.params:
+            env["rheology"] = "maxwell"
+            env["obliquity"] = R("arg_obliquity")
+        else:
+            env["rheologies"] = "maxwell"
+        ex = Exec(fn, globals_env={callee: stub, "MissingAttributeError": "MissingAttributeError"}, opts=dict(definedness=False, auto_inline_same_module=False))
+        try:
+            paths = ex.run(env)
+        except SymExError as e:
+            b.subset_exits.append(f"{fn.key}: {e}")
+            continue
+        rets = [p_ for p_ in paths if p_.outcome == "return"]
+        if len(paths) != 1 or len(rets) != 1 or len(rec) != 1:
+            b.subset_exits.append(f"{fn.key}: {[p_.outcome for p_ in paths]}, {len(rec)} call(s) of {callee}")
+            continue
+        a_, k_ = rec[0]
+        if a_:
+            callee_params = Fn(FQ, callee).params
+            k_ = dict(zip(callee_params, a_), **k_)
+        if callee == "quick_tidal_dissipation":
+            want = dict(host_mass=H["mass"], target_radius=S_["radius"], target_mass=S_["mass"], target_gravity=S_["gravity_surface"], target_density=S_["density_bulk"], target_moi=S_["moi"],
+                        calculate_orbit_spin_derivatives=True, rheology="maxwell", eccentricity=R("arg_eccentricity"), obliquity=R("arg_obliquity"), use_obliquity=True)
+        else:
+            want = dict(radii=(H["radius"], S_["radius"]), masses=(H["mass"], S_["mass"]), gravities=(H["gravity_surface"], S_["gravity_surface"]), densities=(H["density_bulk"], S_["density_bulk"]),
+                        mois=(H["moi"], S_["moi"]), rheologies="maxwell", eccentricity=R("arg_eccentricity"), use_obliquity=True)
+        for p_, v_ in passed.items():
+            want.setdefault(p_, v_)
+        bad = {kk: (str(k_.get(kk, "<missing>")), str(vv)) for kk, vv in want.items() if not (kk in k_ and (k_[kk] is vv or k_[kk] == vv))}
+        extra = sorted(set(k_) - set(want))
+        ground(b, f"{fn.key}::ensures:argument_binding", fn.key, f"ensures {callee} receives every quantity under the parameter of the same meaning (host / secondary not swapped, scales under their own names, derivatives requested)",
+               not bad and not extra and rets[0].value == "RESULT", detail=f"wrong: {bad}; unexpected: {extra}"[:400], refuted_model=None if not bad else {kk: vv[0] for kk, vv in list(bad.items())[:4]})
 
 
 def arrays(b):
